@@ -39,6 +39,10 @@ Grid ==
           inp' = [kind |-> "h2s", msg |-> m, dst |-> d, res |-> H2SRes(d)]
      \/ \E m \in MsgLens : inp' = [kind |-> "mapmsg", msg |-> m, res |-> "Ok"]
      \/ \E a \in ApiIds, n \in Counts : inp' = [kind |-> "gens", api |-> a, n |-> n, res |-> "Ok"]
+     \* prepare_parameters(messages, committed_messages, L + 1, M + 1, blind, api_id): the generator list is
+     \* create(L + 1, api) followed by create(M + 1, "BLIND_" || api), with api absent = empty
+     \/ \E a \in {"blind", "none", "empty", "custom"}, L \in {0, 2}, M \in {0, 3} :
+          inp' = [kind |-> "prepare", api |-> a, L |-> L, M |-> M, res |-> "Ok"]
   /\ pc' = "done" /\ UNCHANGED << done, results >>
 
 \* ---- schedules: every interleaving of the calls of two threads ----------------------
